@@ -24,6 +24,8 @@ mod conform;
 mod grammar;
 #[path = "../../common/rt.rs"]
 mod rt;
+#[path = "../../common/race.rs"]
+mod race;
 
 /// Configuration-specific part of C18: the scanner products, whose every feed/poll/reset runs in
 /// an allocation-counting region, explored to their fixpoints with all oracles off.
@@ -92,6 +94,9 @@ fn main() {
     if args.len() >= 3 && args[1] == "unwind-probe" {
         msgs::unwind_probe_child(&args[2]);
     }
+    if args.len() >= 3 && args[1] == "race-probe" {
+        race::race_child(&args[2]);
+    }
     if args.len() < 2 {
         eprintln!("usage: hm <ID> [--tier quick|thorough] | hm replay <file>");
         std::process::exit(2);
@@ -124,6 +129,7 @@ fn main() {
         "C02" => {
             let chk = Check::new("C02", PART, tier, "exploration");
             msgs::run_c02(&chk);
+            race::race_probe(&chk, "C02", if tier == Tier::Thorough { 400 } else { 40 });
             chk.finish()
         }
         "C03" => {
@@ -160,6 +166,7 @@ fn main() {
         "C09" => {
             let chk = Check::new("C09", PART, tier, "exploration");
             nrpn::run_c09(&chk, tier);
+            race::race_probe(&chk, "C09", if tier == Tier::Thorough { 400 } else { 40 });
             chk.finish()
         }
         "C10" => {
